@@ -39,6 +39,12 @@ def _ident_job(k):
         for name, val, refv in (("L", ob["L"][i].item(), L), ("D", ob["D"][i].item(), D), ("CL", ob["sCL"][i].item(), L / (q * Sh) + s.get("CL0", 0.0)), ("CDi", ob["sCDi"][i].item(), D / (q * Sh))):
             if not (abs(val - refv) <= 1e-9 * max(abs(refv), abs(L) * 1e-3)):
                 bad.append((name, i, val, refv))
+        # sectional lift coefficients: the strip's force component normal to the free stream over q x mid-strip chord x strip width
+        strip = ob["sec_forces"][i].sum(axis=0)
+        w_, ch_ = ob["widths"][i], ob["chords"][i]
+        cl_ref = strip.dot(lift_dir) / (q * 0.5 * (ch_[1:] + ch_[:-1]) * w_)
+        if ob["Cl"][i].shape != cl_ref.shape or not (float(np.max(np.abs(ob["Cl"][i] - cl_ref))) <= 1e-9 * max(float(np.max(np.abs(cl_ref))), 1e-6)):
+            bad.append(("Cl", i, ob["Cl"][i].tolist(), cl_ref.tolist()))
         cl += ob["sCL"][i].item() * S / stot
         cd += ob["sCD"][i].item() * S / stot
     # aircraft lift and drag: q S_ref_total (CL, CD)
@@ -56,6 +62,10 @@ def run(tier, only=None):
     depth = 2 if tier == "quick" else 3
     behs, types = lawcheck.behaviours(R, ["ScaleRho", "ScaleV", "ScaleLen", "Translate", "Reorder", "Reexpress"], lawcheck.ALL_BASE, depth)
     lawcheck.replay_all(R, "C06", behs, limit=400 if tier == "quick" else 4000)
+    # the same laws one step at a time over five decades of the scale factors: a floor, a clamp or a tolerance in absolute
+    # units (a minimum panel area, a minimum force, ...) is invisible at factors 2 and 1/3
+    behs2, _ = lawcheck.behaviours(R, ["ScaleRho", "ScaleV", "ScaleLen"], lawcheck.ALL_BASE, 1, factors="{<<1000, 1>>, <<1, 1000>>, <<30, 1>>, <<1, 30>>}")
+    lawcheck.replay_all(R, "C06", behs2, limit=150 if tier == "quick" else 1500, rngseed=seed() + 1)
     res = check_exc(pmap(_ident_job, range(16 if tier == "quick" else 96)))
     for k, cls, bad in res:
         R.case(["ident", k], True, section="identities")
